@@ -38,10 +38,14 @@ def run(c):
     nps = ALL_NP if th else QUICK_NP
 
     def models():
-        c.tlc_model("PmisModel", constants={"NN": 4, "MinNP": 1, "MaxNP": 3, "Sym": "TRUE"}, workers=4)
-        c.tlc_model("PmisModel", constants={"NN": 5, "MinNP": 1 if th else 2, "MaxNP": 3 if th else 2, "Sym": "TRUE"}, workers=8, timeout=2400)
-        c.tlc_model("PmisModel", constants={"NN": 4 if th else 3, "MinNP": 1, "MaxNP": 3, "Sym": "FALSE"}, workers=8, timeout=2400)
-        c.tlc_model("Consolidation", workers=2)
+        # four small state spaces: run side by side (distinct cfg files: the derived configs must not collide)
+        c.parallel([
+            lambda: c.tlc_model("PmisModel", constants={"NN": 4, "MinNP": 1, "MaxNP": 3, "Sym": "TRUE"}, workers=4),
+            lambda: c.tlc_model("PmisModel", cfg="PmisModel5.cfg", constants={"NN": 5, "MinNP": 1 if th else 2, "MaxNP": 3 if th else 2, "Sym": "TRUE"},
+                                workers=4 if not th else 8, timeout=2400),
+            lambda: c.tlc_model("PmisModel", cfg="PmisModelDi.cfg", constants={"NN": 4 if th else 3, "MinNP": 1, "MaxNP": 3, "Sym": "FALSE"},
+                                workers=4 if not th else 8, timeout=2400),
+            lambda: c.tlc_model("Consolidation", workers=2)])
 
     def validate(t, label, chunk):
         lines = [x for x in open(t).read().splitlines() if x.startswith("{") and x.endswith("}")]
